@@ -826,6 +826,7 @@ fn gen_gk_spec(rng: &mut Rng, n_glyphs: usize, big: bool, pool: &mut HashMap<u32
     GkSpec { wide, tables, gids, data }
 }
 
+#[derive(Clone)]
 struct GkPatch {
     spec: GkSpec,
     bytes: Vec<u8>,
@@ -962,6 +963,8 @@ fn gk_oracles(s: &mut Session, f: &GkFont, base: &Tables, out: &Tables, applied:
     }
     for (tag, d) in base {
         if [tg(b"IFT "), tg(b"IFTX"), tg(b"glyf"), tg(b"loca")].contains(tag) { continue; }
+        // gvar named by a patch is re-assembled: judged by `gvar_oracles`
+        if *tag == tg(b"gvar") && applied.iter().any(|(_, p)| p.spec.tables.contains(tag)) { continue; }
         let same = get(out, *tag).map(|o| canon_head(*tag, o) == canon_head(*tag, d)).unwrap_or(false);
         s.oracle("gk:untouched-table-identical", same, input, || format!("table {}", hex(&tag.to_be_bytes())));
     }
@@ -1083,6 +1086,18 @@ fn run_gk(s: &mut Session, rng: &mut Rng, n_cases: usize, big: bool) {
                 if matches!(res, Err(PatchingError::IncompatiblePatch)) {
                     s.oracle("gk:compat-mismatch-before-decode", n_calls == 0, input, || format!("{n_calls} calls"));
                 }
+                // EVERY patch of the group: info id and header id must equal the font's id for its table
+                let foreign = pairs.iter().position(|(i, p)| {
+                    let tag = if i.iftx { IFTX } else { IFT_ };
+                    match get(&base, tag) {
+                        Some(d) if d.len() >= 21 => d[5..21] != i.compat[..] || (p.bytes.len() >= 29 && p.bytes[9..25] != d[5..21]),
+                        _ => false,
+                    }
+                });
+                if let Some(k) = foreign {
+                    s.count(if k == 0 { "gk:foreign-id-first" } else { "gk:foreign-id-nonfirst" });
+                    s.oracle("gk:every-patch-compat-checked", res.is_err() && n_calls == 0, input, || format!("patch {k} foreign: {resp} after {n_calls} decoder calls"));
+                }
                 if sibling == 0 && pairs.iter().any(|(i, _)| !i.iftx) {
                     s.count("gk:sibling-compat");
                 }
@@ -1133,6 +1148,507 @@ fn run_gk(s: &mut Session, rng: &mut Rng, n_cases: usize, big: bool) {
             }
             let got = if ok { tables_of(&cur) } else { None };
             s.oracle("gk:agreeing-patches-any-grouping", got.as_ref().map(|g| same_tables_mod_head(g, want)).unwrap_or(false), input, || format!("split at {cut}: tables differ or a group failed"));
+        }
+    }
+}
+
+
+// ------------------------------------------------------------------------------------------
+// gvar (oracle only: the Lean model answers UNMODELLED for gvar, so these cases are not sent to it)
+// ------------------------------------------------------------------------------------------
+
+#[derive(Clone, Debug)]
+struct GvarSpec {
+    long: bool,
+    axis: u16,
+    tuples: Vec<u8>,
+    glyphs: Vec<Vec<u8>>,
+    /// glyph data stored before the shared tuples (non-spec order: patching re-orders)
+    swapped: bool,
+}
+
+fn gvar_bytes(g: &GvarSpec) -> Vec<u8> {
+    let n = g.glyphs.len();
+    let w = if g.long { 4 } else { 2 };
+    let hdr = 20 + (n + 1) * w;
+    let data_len: usize = g.glyphs.iter().map(|d| d.len()).sum();
+    let (tuples_off, data_off) = if g.swapped { (hdr + data_len, hdr) } else { (hdr, hdr + g.tuples.len()) };
+    let mut b = vec![0, 1, 0, 0];
+    b.extend_from_slice(&g.axis.to_be_bytes());
+    let count = if g.axis == 0 { 0 } else { g.tuples.len() / (2 * g.axis as usize) };
+    b.extend_from_slice(&(count as u16).to_be_bytes());
+    b.extend_from_slice(&(tuples_off as u32).to_be_bytes());
+    b.extend_from_slice(&(n as u16).to_be_bytes());
+    b.extend_from_slice(&(if g.long { 1u16 } else { 0 }).to_be_bytes());
+    b.extend_from_slice(&(data_off as u32).to_be_bytes());
+    let mut o = 0usize;
+    for i in 0..=n {
+        if g.long { b.extend_from_slice(&(o as u32).to_be_bytes()); } else { b.extend_from_slice(&((o / 2) as u16).to_be_bytes()); }
+        if i < n { o += g.glyphs[i].len(); }
+    }
+    if g.swapped {
+        for d in &g.glyphs { b.extend_from_slice(d); }
+        b.extend_from_slice(&g.tuples);
+    } else {
+        b.extend_from_slice(&g.tuples);
+        for d in &g.glyphs { b.extend_from_slice(d); }
+    }
+    b
+}
+
+/// independent reader of a gvar table (spec layout): None if anything is out of bounds / descending
+fn gvar_read(b: &[u8]) -> Option<GvarSpec> {
+    if b.len() < 20 { return None; }
+    let u16at = |i: usize| u16::from_be_bytes([b[i], b[i + 1]]) as usize;
+    let u32at = |i: usize| u32::from_be_bytes([b[i], b[i + 1], b[i + 2], b[i + 3]]) as usize;
+    let axis = u16at(4);
+    let count = u16at(6);
+    let tuples_off = u32at(8);
+    let n = u16at(12);
+    let long = u16at(14) & 1 == 1;
+    let data_off = u32at(16);
+    let w = if long { 4 } else { 2 };
+    if b.len() < 20 + (n + 1) * w { return None; }
+    let offs: Vec<usize> = (0..=n).map(|i| if long { u32at(20 + 4 * i) } else { u16at(20 + 2 * i) * 2 }).collect();
+    let tl = count * axis * 2;
+    if tuples_off + tl > b.len() { return None; }
+    let mut glyphs = vec![];
+    for i in 0..n {
+        if offs[i] > offs[i + 1] || data_off + offs[i + 1] > b.len() { return None; }
+        glyphs.push(b[data_off + offs[i]..data_off + offs[i + 1]].to_vec());
+    }
+    Some(GvarSpec { long, axis: axis as u16, tuples: b[tuples_off..tuples_off + tl].to_vec(), glyphs, swapped: data_off < tuples_off })
+}
+
+const GLYF: u32 = 0x676c7966;
+const LOCA: u32 = 0x6c6f6361;
+const GVAR: u32 = 0x67766172;
+const IFT_: u32 = 0x49465420;
+const IFTX: u32 = 0x49465458;
+
+/// first-wins replacement data for `table` over the patches in application order
+fn first_wins(applied: &[(&Info, &GkPatch)], table: u32) -> BTreeMap<u32, Vec<u8>> {
+    let mut repl: BTreeMap<u32, Vec<u8>> = BTreeMap::new();
+    for (_, p) in applied {
+        if let Some(ti) = p.spec.tables.iter().position(|t| *t == table) {
+            for (gi, g) in p.spec.gids.iter().enumerate() {
+                repl.entry(*g).or_insert_with(|| p.spec.data[ti][gi].clone());
+            }
+        }
+    }
+    repl
+}
+
+/// the property for gvar, evaluated on the real output bytes
+fn gvar_oracles(s: &mut Session, base: &GvarSpec, out_bytes: &[u8], applied: &[(&Info, &GkPatch)], input: &dyn Fn() -> String) {
+    let repl = first_wins(applied, GVAR);
+    let Some(out) = gvar_read(out_bytes) else {
+        s.oracle("gvar:output-readable", false, input, || "gvar reader failed (bounds / descending offsets)".into());
+        return;
+    };
+    let n = base.glyphs.len();
+    s.oracle("gvar:header-kept", out.axis == base.axis && out.tuples == base.tuples && out.glyphs.len() == n, input,
+        || format!("axis {} vs {}, tuples {} vs {} bytes, glyphs {} vs {}", out.axis, base.axis, out.tuples.len(), base.tuples.len(), out.glyphs.len(), n));
+    s.oracle("gvar:spec-order", !out.swapped || out.tuples.is_empty(), input, || "glyph data before shared tuples".into());
+    // widening exactly when needed (sizes computed with the ORIGINAL offset type's padding)
+    let pad0 = |l: usize| if base.long { l } else { l + l % 2 };
+    let total: usize = (0..n).map(|g| match repl.get(&(g as u32)) { Some(d) => pad0(d.len()), None => base.glyphs[g].len() }).sum();
+    let want_long = base.long || total > 0x1FFFE;
+    s.count(if want_long && !base.long { "gvar:widened" } else if base.long { "gvar:long" } else { "gvar:short" });
+    s.oracle("gvar:offset-width-widened-iff-needed", out.long == want_long, input, || format!("total {total}: out long {} want {}", out.long, want_long));
+    if out.glyphs.len() != n { return; }
+    for g in 0..n {
+        match repl.get(&(g as u32)) {
+            Some(d) => {
+                let mut want = d.clone();
+                if !out.long && want.len() % 2 == 1 { want.push(0); }
+                s.oracle("gvar:listed-glyph-is-patch-data", out.glyphs[g] == want, input, || format!("gid {g}: got {} bytes want {}", out.glyphs[g].len(), want.len()));
+            }
+            None => s.oracle("gvar:other-glyph-unchanged", out.glyphs[g] == base.glyphs[g], input, || format!("gid {g}")),
+        }
+    }
+    // nothing but header + offsets + tuples + data
+    let w = if out.long { 4 } else { 2 };
+    let dl: usize = out.glyphs.iter().map(|d| d.len()).sum();
+    s.oracle("gvar:no-slack", out_bytes.len() == 20 + (n + 1) * w + out.tuples.len() + dl, input, || format!("len {}", out_bytes.len()));
+}
+
+fn gen_gvar(rng: &mut Rng, n: usize, big: bool) -> GvarSpec {
+    let long = rng.chance(1, 3);
+    let axis = rng.range(1, 2) as u16;
+    let count = rng.below(3) as usize;
+    let tl = count * axis as usize * 2;
+    let tuples = rng.bytes(tl);
+    let glyphs = (0..n).map(|_| { let l = glyph_len(rng, long, big); rng.bytes(l) }).collect();
+    GvarSpec { long, axis, tuples, glyphs, swapped: rng.chance(1, 4) }
+}
+
+/// clean font: glyf/loca/head/maxp (+ gvar), one or two mapping tables
+fn clean_font(rng: &mut Rng, n: usize, long: bool, big: bool, gvar: Option<&GvarSpec>, ift: Vec<u8>, iftx: Option<Vec<u8>>) -> GkFont {
+    let glyphs: Vec<Vec<u8>> = (0..n).map(|_| { let l = glyph_len(rng, long, big); rng.bytes(l) }).collect();
+    font_from_glyphs(rng, glyphs, long, gvar, ift, iftx)
+}
+
+fn font_from_glyphs(rng: &mut Rng, glyphs: Vec<Vec<u8>>, long: bool, gvar: Option<&GvarSpec>, ift: Vec<u8>, iftx: Option<Vec<u8>>) -> GkFont {
+    let mut tables: BTreeMap<u32, Vec<u8>> = BTreeMap::new();
+    let mut glyf = vec![];
+    let mut offs = vec![0u32];
+    for g in &glyphs {
+        glyf.extend_from_slice(g);
+        offs.push(glyf.len() as u32);
+    }
+    tables.insert(GLYF, glyf);
+    tables.insert(LOCA, loca_bytes(&offs, long));
+    tables.insert(HEAD, head_table(long, rng));
+    tables.insert(tg(b"maxp"), maxp_table(glyphs.len() as u16));
+    if let Some(g) = gvar { tables.insert(GVAR, gvar_bytes(g)); }
+    tables.insert(IFT_, ift);
+    if let Some(x) = iftx { tables.insert(IFTX, x); }
+    if rng.chance(1, 2) { let l = rng.below(12) as usize; tables.insert(tg(b"tab1"), rng.bytes(l)); }
+    GkFont { long, glyphs, tables, clean: true }
+}
+
+/// a clean patch over an explicit table list; data agree through the per-table pools
+fn gen_group_patch(rng: &mut Rng, n_glyphs: usize, tables: Vec<u32>, pools: &mut HashMap<(u32, u32), Vec<u8>>, agree: bool, lens: &[usize]) -> GkSpec {
+    let wide = rng.chance(1, 4);
+    let k = rng.range(1, n_glyphs.min(6) as i64) as usize;
+    let mut gids: Vec<u32> = (0..n_glyphs as u32).collect();
+    rng.shuffle(&mut gids);
+    gids.truncate(k);
+    gids.sort();
+    let mut data = vec![];
+    for t in &tables {
+        let mut per = vec![];
+        for g in &gids {
+            let l = *rng.pick(lens);
+            let fresh = rng.bytes(l);
+            per.push(if agree { pools.entry((*t, *g)).or_insert(fresh).clone() } else { fresh });
+        }
+        data.push(per);
+    }
+    GkSpec { wide, tables, gids, data }
+}
+
+fn mk_patch(spec: GkSpec, compat: &[u8; 16]) -> GkPatch {
+    let payload = gk_payload(&spec);
+    let bytes = gk_patch(b"ifgk", spec.wide, compat, payload.len() as u32, &payload);
+    GkPatch { spec, bytes, clean: true }
+}
+
+fn all_tables_equal(a: &Tables, b: &Tables) -> Option<String> {
+    if a.len() != b.len() { return Some(format!("{} vs {} tables", a.len(), b.len())); }
+    for ((ta, da), (tb, db)) in a.iter().zip(b) {
+        if ta != tb { return Some(format!("tag {} vs {}", hex(&ta.to_be_bytes()), hex(&tb.to_be_bytes()))); }
+        if canon_head(*ta, da) != canon_head(*tb, db) { return Some(format!("table {} differs ({} vs {} bytes)", hex(&ta.to_be_bytes()), da.len(), db.len())); }
+    }
+    None
+}
+
+/// the model can answer iff no patch names gvar / CFF / CFF2
+fn modelled(patches: &[(&Info, &GkPatch)]) -> bool {
+    patches.iter().all(|(_, p)| !p.spec.tables.iter().any(|t| *t == GVAR || *t == tg(b"CFF ") || *t == tg(b"CFF2")))
+}
+
+
+/// total gvar glyph data after applying `applied` to a font whose gvar is `cur` (None: gvar not named)
+fn gvar_total_after(cur: Option<&Vec<u8>>, applied: &[(&Info, &GkPatch)]) -> Option<usize> {
+    if !applied.iter().any(|(_, p)| p.spec.tables.contains(&GVAR)) { return None; }
+    let g = gvar_read(cur?)?;
+    let repl = first_wins(applied, GVAR);
+    Some((0..g.glyphs.len()).map(|i| repl.get(&(i as u32)).map(|d| d.len()).unwrap_or(g.glyphs[i].len())).sum())
+}
+
+/// apply the groups one after the other; Err(None): a step would leave gvar without any glyph data
+/// (known finding, reported under its own oracle), Err(Some(msg)): a step failed
+fn apply_seq(s: &mut Session, font: &[u8], groups: &[&[(&Info, &GkPatch)]], input: &dyn Fn() -> String) -> Result<Tables, Option<String>> {
+    let mut cur = font.to_vec();
+    for grp in groups {
+        let cur_tables = tables_of(&cur).ok_or(Some("unreadable".to_string()))?;
+        let empties = gvar_total_after(get(&cur_tables, GVAR), grp) == Some(0);
+        let dec = Scripted::new(None);
+        let r = apply_gk(&cur, grp, &dec);
+        if empties {
+            s.count("group:gvar-all-empty-step");
+            let detail = match &r { Ok(Ok(_)) => "ok".to_string(), Ok(Err(e)) => format!("err {}", perr(e)), Err(p) => format!("panic {p}") };
+            s.oracle("gvar:patch-leaving-all-glyph-data-empty-applies", matches!(r, Ok(Ok(_))), input, || detail.clone());
+            if !matches!(r, Ok(Ok(_))) { return Err(None); }
+        }
+        match r {
+            Ok(Ok(b)) => cur = b,
+            Ok(Err(e)) => return Err(Some(format!("err {}", perr(&e)))),
+            Err(p) => return Err(Some(format!("panic {p}"))),
+        }
+    }
+    tables_of(&cur).ok_or(Some("unreadable".to_string()))
+}
+
+/// Err(IncompatiblePatch) expected with zero decoder calls, whatever the order
+fn expect_incompatible(s: &mut Session, font: &[u8], base: &Tables, pairs: &[(&Info, &GkPatch)], what: &str, case_no: usize) {
+    for rev in [false, true] {
+        let order: Vec<(&Info, &GkPatch)> = if rev { pairs.iter().rev().cloned().collect() } else { pairs.to_vec() };
+        let dec = Scripted::new(None);
+        let r = apply_gk(font, &order, &dec);
+        let req = gk_req(&dec, &order, base);
+        let input = || format!("group#{case_no} {what} reversed={rev}: {}", req.chars().take(2500).collect::<String>());
+        let resp = match &r {
+            Err(p) => format!("panic {p}"),
+            Ok(Err(e)) => format!("err {}", perr(e)),
+            Ok(Ok(bytes)) => match tables_of(bytes) { Some(t) => format!("ok {}", tables_str(&t)), None => "ok unreadable".into() },
+        };
+        if modelled(&order) {
+            s.case("glyph_keyed_group", req.clone(), resp.clone());
+        }
+        s.oracle("group:foreign-compat-id-anywhere-is-IncompatiblePatch", matches!(r, Ok(Err(PatchingError::IncompatiblePatch))), input, || resp.clone());
+        s.oracle("group:foreign-compat-id-before-any-decode", dec.n_calls() == 0, input, || format!("{} decoder calls", dec.n_calls()));
+    }
+}
+
+fn run_gk_groups(s: &mut Session, rng: &mut Rng, n_cases: usize) {
+    for case_no in 0..n_cases {
+        let c1 = compat_id(rng);
+        let mut c2 = compat_id(rng);
+        c2[15] = c2[15].wrapping_add(7);
+        let ents: Vec<MapEntry> = (0..6).map(|_| MapEntry { delta: 0, format: 3, ignored: false }).collect();
+        let ents2: Vec<MapEntry> = (0..6).map(|i| MapEntry { delta: if i == 0 { 100 } else { 0 }, format: 3, ignored: false }).collect();
+        let ift = ift_format2(&c1, rng.below(4) as usize, &ents);
+        let iftx = if rng.chance(1, 2) { Some(ift_format2(&c2, rng.below(4) as usize, &ents2)) } else { None };
+        let n = *rng.pick(&[2usize, 3, 5, 8, 13]);
+        let long = rng.chance(1, 2);
+        let gv = if rng.chance(2, 3) { Some(gen_gvar(rng, n, false)) } else { None };
+        let f = clean_font(rng, n, long, false, gv.as_ref(), ift.clone(), iftx.clone());
+        let font = build_font(&f.tables);
+        let Some(base) = tables_of(&font) else { continue };
+        let all_infos = infos_of(&font);
+        // a group under ONE mapping table
+        let use_iftx = iftx.is_some() && rng.chance(1, 3);
+        let infos: Vec<&Info> = all_infos.iter().filter(|i| i.iftx == use_iftx).collect();
+        if infos.len() < 2 { s.count("group:too-few-infos"); continue; }
+        let n_p = rng.range(2, infos.len().min(4) as i64) as usize;
+        let kind = rng.below(4);
+        let agree = kind != 3;
+        let mut pools: HashMap<(u32, u32), Vec<u8>> = HashMap::new();
+        let mut patches: Vec<GkPatch> = vec![];
+        let lens = [0usize, 1, 2, 3, 4, 5, 9, 16];
+        for pi in 0..n_p {
+            // different table sets inside one group
+            let tabs: Vec<u32> = match (gv.is_some(), (pi + rng.below(3) as usize) % 3) {
+                (true, 0) => vec![GLYF],
+                (true, 1) => vec![GLYF, GVAR],
+                (true, _) => vec![GVAR],
+                (false, 0) => vec![GLYF],
+                (false, 1) => vec![tg(b"aaaa"), GLYF],
+                (false, _) => vec![GLYF, tg(b"zzzz")],
+            };
+            let spec = gen_group_patch(rng, n, tabs, &mut pools, agree, &lens);
+            let compat: [u8; 16] = infos[pi].compat.clone().try_into().unwrap_or([0; 16]);
+            patches.push(mk_patch(spec, &compat));
+        }
+        let pairs: Vec<(&Info, &GkPatch)> = (0..n_p).map(|pi| (infos[pi], &patches[pi])).collect();
+        let sets: Vec<String> = pairs.iter().map(|(_, p)| p.spec.tables.iter().map(|t| String::from_utf8_lossy(&t.to_be_bytes()).trim().to_string()).collect::<Vec<_>>().join("+")).collect();
+        let distinct_sets = { let mut v = sets.clone(); v.sort(); v.dedup(); v.len() };
+        match kind {
+            1 => {
+                // a NON-first patch carries a foreign compat id in its header
+                let k = rng.range(1, n_p as i64 - 1) as usize;
+                let mut bad = patches.clone();
+                let mut c: [u8; 16] = infos[k].compat.clone().try_into().unwrap_or([0; 16]);
+                let bi = rng.below(16) as usize;
+                c[bi] ^= 1 << rng.below(8);
+                bad[k] = mk_patch(patches[k].spec.clone(), &c);
+                let bad_pairs: Vec<(&Info, &GkPatch)> = (0..n_p).map(|pi| (infos[pi], &bad[pi])).collect();
+                s.count("group:foreign-header-id-nonfirst");
+                expect_incompatible(s, &font, &base, &bad_pairs, &format!("foreign header id in patch {k}"), case_no);
+            }
+            2 => {
+                // a NON-first patch was selected under another font's mapping table (same uri/bit, other id)
+                let k = rng.range(1, n_p as i64 - 1) as usize;
+                let mut t = f.tables.clone();
+                let mut other = if use_iftx { c2 } else { c1 };
+                let bi = rng.below(16) as usize;
+                other[bi] ^= 1 << rng.below(8);
+                if use_iftx { t.insert(IFTX, ift_format2(&other, 0, &ents2)); } else { t.insert(IFT_, ift_format2(&other, 0, &ents)); }
+                let sib = build_font(&t);
+                let sib_infos = infos_of(&sib);
+                let Some(foreign) = sib_infos.iter().find(|i| i.uri == infos[k].uri && i.iftx == use_iftx) else { s.count("group:no-sibling-info"); continue };
+                // the patch itself carries the FONT's id: only the info is foreign
+                let bad_pairs: Vec<(&Info, &GkPatch)> = (0..n_p).map(|pi| (if pi == k { foreign } else { infos[pi] }, &patches[pi])).collect();
+                s.count("group:foreign-info-id-nonfirst");
+                expect_incompatible(s, &font, &base, &bad_pairs, &format!("foreign info id for patch {k}"), case_no);
+                // and the patch carrying the foreign id as well (consistent with its info, foreign to the font)
+                let mut bad = patches.clone();
+                bad[k] = mk_patch(patches[k].spec.clone(), &other);
+                let bad_pairs: Vec<(&Info, &GkPatch)> = (0..n_p).map(|pi| (if pi == k { foreign } else { infos[pi] }, &bad[pi])).collect();
+                expect_incompatible(s, &font, &base, &bad_pairs, &format!("foreign info+header id for patch {k}"), case_no);
+            }
+            _ => {
+                // all orders / groupings, every table compared by bytes (gvar included)
+                s.count(&format!("group:table-sets-{distinct_sets}-distinct"));
+                let dec0 = Scripted::new(None);
+                let req0 = gk_req(&dec0, &pairs, &base);
+                let input0 = || format!("group#{case_no} sets {sets:?}: {}", req0.chars().take(3000).collect::<String>());
+                let want = match apply_seq(s, &font, &[&pairs[..]], &input0) {
+                    Ok(t) => t,
+                    Err(None) => continue,
+                    Err(Some(resp)) => {
+                        if modelled(&pairs) { s.case("glyph_keyed_group", req0.clone(), resp.clone()); }
+                        s.oracle("group:clean-group-applies", false, input0, || resp.clone());
+                        continue;
+                    }
+                };
+                if modelled(&pairs) {
+                    s.case("glyph_keyed_group", req0.clone(), format!("ok {}", tables_str(&want)));
+                }
+                s.count("group:ok");
+                // per-glyph statement (first wins in THIS order), also when the patches disagree
+                gk_oracles_tables(s, &f, &base, &want, &pairs, &input0);
+                if let (Some(g), Some(o)) = (&gv, get(&want, GVAR)) {
+                    if pairs.iter().any(|(_, p)| p.spec.tables.contains(&GVAR)) {
+                        s.count("group:gvar-patched");
+                        gvar_oracles(s, g, o, &pairs, &input0);
+                    } else {
+                        s.oracle("gk:untouched-table-identical", Some(o) == get(&base, GVAR), input0, || "gvar".into());
+                    }
+                }
+                if !agree { s.count("group:disagreeing"); continue; }
+                // every rotation + one random permutation + the reverse
+                let mut orders: Vec<Vec<usize>> = (1..n_p).map(|r| (0..n_p).map(|i| (i + r) % n_p).collect()).collect();
+                let mut perm: Vec<usize> = (0..n_p).collect();
+                rng.shuffle(&mut perm);
+                orders.push(perm);
+                orders.push((0..n_p).rev().collect());
+                for ord in &orders {
+                    let o: Vec<(&Info, &GkPatch)> = ord.iter().map(|&i| pairs[i]).collect();
+                    let input = || format!("group#{case_no} sets {sets:?} order {ord:?}: {}", req0.chars().take(3000).collect::<String>());
+                    match apply_seq(s, &font, &[&o[..]], &input) {
+                        Err(None) => {}
+                        r => {
+                            let diff = match r { Ok(g) => all_tables_equal(&g, &want), Err(e) => e };
+                            s.oracle("group:any-order-identical-tables", diff.is_none(), input, || diff.clone().unwrap_or_default());
+                        }
+                    }
+                    // every sequential two-way split of this order
+                    for cut in 1..n_p {
+                        match apply_seq(s, &font, &[&o[..cut], &o[cut..]], &input) {
+                            Err(None) => {}
+                            r => {
+                                let diff = match r { Ok(g) => all_tables_equal(&g, &want), Err(e) => e };
+                                s.oracle("group:any-grouping-identical-tables", diff.is_none(), input, || format!("split at {cut}: {}", diff.clone().unwrap_or_default()));
+                            }
+                        }
+                    }
+                }
+                // one by one
+                let singles: Vec<&[(&Info, &GkPatch)]> = pairs.iter().map(std::slice::from_ref).collect();
+                match apply_seq(s, &font, &singles, &input0) {
+                    Err(None) => {}
+                    r => {
+                        let diff = match r { Ok(g) => all_tables_equal(&g, &want), Err(e) => e };
+                        s.oracle("group:one-by-one-identical-tables", diff.is_none(), input0, || diff.clone().unwrap_or_default());
+                    }
+                }
+            }
+        }
+    }
+}
+
+/// `gk_oracles` for a font that may carry gvar: glyf part only when some patch names glyf
+fn gk_oracles_tables(s: &mut Session, f: &GkFont, base: &Tables, out: &Tables, applied: &[(&Info, &GkPatch)], input: &dyn Fn() -> String) {
+    if applied.iter().any(|(_, p)| p.spec.tables.contains(&GLYF)) {
+        gk_oracles(s, f, base, out, applied, input);
+    } else {
+        for tag in [GLYF, LOCA] {
+            s.oracle("gk:untouched-table-identical", get(out, tag) == get(base, tag), input, || format!("table {}", hex(&tag.to_be_bytes())));
+        }
+        for tag in [IFT_, IFTX] {
+            let Some(old) = get(base, tag) else { continue };
+            let mut want = old.clone();
+            for (i, _) in applied {
+                if (if i.iftx { IFTX } else { IFT_ }) == tag { want[i.bit / 8] |= 1 << (i.bit % 8); }
+            }
+            s.oracle("gk:only-the-patches-applied-bits-set", get(out, tag) == Some(&want), input, || format!("table {}", hex(&tag.to_be_bytes())));
+        }
+    }
+}
+
+/// totals exactly at the short-offset limit 0x1FFFE (= 65535 * 2)
+fn run_boundary(s: &mut Session, rng: &mut Rng) {
+    let c1 = compat_id(rng);
+    let ents: Vec<MapEntry> = (0..3).map(|_| MapEntry { delta: 0, format: 3, ignored: false }).collect();
+    let ift = ift_format2(&c1, 0, &ents);
+    // fixed demonstration of the known finding C18-gvar-all-glyph-data-empty:
+    // A empties the only glyph that has gvar data, B adds data for another glyph
+    for long in [false, true] {
+        let glyphs = vec![rng.bytes(4), rng.bytes(2), rng.bytes(6)];
+        let gv = GvarSpec { long, axis: 1, tuples: rng.bytes(2), glyphs: vec![vec![], vec![], rng.bytes(8)], swapped: false };
+        let f = font_from_glyphs(rng, glyphs, long, Some(&gv), ift.clone(), None);
+        let font = build_font(&f.tables);
+        let infos = infos_of(&font);
+        if infos.len() < 2 { continue; }
+        let a = mk_patch(GkSpec { wide: false, tables: vec![GVAR], gids: vec![2], data: vec![vec![vec![]]] }, &c1);
+        let b = mk_patch(GkSpec { wide: false, tables: vec![GVAR], gids: vec![0], data: vec![vec![vec![1, 2]]] }, &c1);
+        let pa = (&infos[0], &a);
+        let pb = (&infos[1], &b);
+        let input = || format!("boundary#gvar-empty long={long}: A = gvar gid2 := empty, B = gvar gid0 := 0102, base gvar data only for gid2");
+        let both = apply_seq(s, &font, &[&[pa, pb][..]], &input);
+        s.oracle("boundary:gvar-A+B-in-one-call-applies", both.is_ok(), input, || format!("{:?}", both.as_ref().err()));
+        let b_then_a = apply_seq(s, &font, &[&[pb][..], &[pa][..]], &input);
+        s.oracle("boundary:gvar-B-then-A-equals-A+B", match (&both, &b_then_a) { (Ok(x), Ok(y)) => all_tables_equal(x, y).is_none(), _ => false }, input, || "differs / failed".into());
+        // A then B: A alone leaves gvar without data (reported under the known finding's oracle)
+        if let Ok(t) = apply_seq(s, &font, &[&[pa][..], &[pb][..]], &input) {
+            s.oracle("boundary:gvar-A-then-B-equals-A+B", both.as_ref().map(|x| all_tables_equal(x, &t).is_none()).unwrap_or(false), input, || "differs".into());
+        }
+    }
+    for (case_no, total) in [0x1FFFCusize, 0x1FFFE, 0x20000, 0x20002].into_iter().enumerate() {
+        for odd in [false, true] {
+            for table in [GLYF, GVAR] {
+                // glyph 0: 10 bytes kept, glyph 1 replaced, glyph 2: 6 bytes kept
+                let padded = total - 16;
+                let l = if odd { padded - 1 } else { padded };
+                let glyphs = vec![rng.bytes(10), rng.bytes(4), rng.bytes(6)];
+                let gv = GvarSpec { long: false, axis: 1, tuples: rng.bytes(2), glyphs: glyphs.clone(), swapped: false };
+                let f = font_from_glyphs(rng, glyphs.clone(), false, Some(&gv), ift.clone(), None);
+                let font = build_font(&f.tables);
+                let Some(base) = tables_of(&font) else { continue };
+                let infos = infos_of(&font);
+                let Some(info) = infos.first() else { continue };
+                let spec = GkSpec { wide: false, tables: vec![table], gids: vec![1], data: vec![vec![rng.bytes(l)]] };
+                let patch = mk_patch(spec, &c1);
+                let pairs = vec![(info, &patch)];
+                let dec = Scripted::new(None);
+                let r = apply_gk(&font, &pairs, &dec);
+                let input = || format!("boundary#{case_no} table {} total {total:#x} odd {odd}", hex(&table.to_be_bytes()));
+                let resp = match &r {
+                    Err(p) => format!("panic {p}"),
+                    Ok(Err(e)) => format!("err {}", perr(e)),
+                    Ok(Ok(bytes)) => match tables_of(bytes) { Some(t) => format!("ok {}", tables_str(&t)), None => "ok unreadable".into() },
+                };
+                if table == GLYF {
+                    s.case("glyph_keyed_boundary", gk_req(&dec, &pairs, &base), resp.clone());
+                }
+                let fits = total <= 0x1FFFE;
+                match (&r, table) {
+                    (Ok(Ok(bytes)), GLYF) => {
+                        s.count("boundary:glyf-ok");
+                        s.oracle("boundary:short-loca-beyond-0x1FFFE-is-error", fits, input, || resp.clone());
+                        if let Some(out) = tables_of(bytes) { gk_oracles(s, &f, &base, &out, &pairs, &input); }
+                    }
+                    (Ok(Err(e)), GLYF) => {
+                        s.count("boundary:glyf-err");
+                        s.oracle("boundary:short-loca-up-to-0x1FFFE-fits", !fits, input, || resp.clone());
+                        s.oracle("boundary:glyf-overflow-is-offset-overflow-error", perr(e) == "SerializationError(2)", input, || resp.clone());
+                    }
+                    (Ok(Ok(bytes)), _) => {
+                        s.count("boundary:gvar-ok");
+                        if let Some(out) = tables_of(bytes) {
+                            if let Some(o) = get(&out, GVAR) { gvar_oracles(s, &gv, o, &pairs, &input); }
+                            for tag in [GLYF, LOCA] {
+                                s.oracle("gk:untouched-table-identical", get(&out, tag) == get(&base, tag), input, || format!("table {}", hex(&tag.to_be_bytes())));
+                            }
+                        }
+                    }
+                    _ => s.oracle("boundary:gvar-applies-with-widening", false, input, || resp.clone()),
+                }
+            }
         }
     }
 }
@@ -1217,16 +1733,40 @@ fn run_round(s: &mut Session, rng: &mut Rng, n_cases: usize) {
             };
             full.insert(i.uri.clone(), bytes);
         }
-        let n_variants = 3;
+        // the group's two iterators (selection is deterministic for font + subset definition)
+        let (inv0, non0): (Vec<String>, Vec<String>) = match PatchGroup::select_next_patches(fref.clone(), &sd) {
+            Ok(g) => {
+                let uris: Vec<String> = g.uris().map(|u| u.to_string()).collect();
+                let is_gk = |u: &String| infos.iter().find(|i| &i.uri == u).map(|i| matches!(i.format, PatchFormat::GlyphKeyed)).unwrap_or(false);
+                (uris.iter().filter(|u| !is_gk(u)).cloned().collect(), uris.iter().filter(|u| is_gk(u)).cloned().collect())
+            }
+            Err(_) => (vec![], vec![]),
+        };
+        let n_variants = 5;
         for variant in 0..n_variants {
             // status map: mostly pending, some applied, some missing
             let mut st: HashMap<String, UriStatus> = HashMap::new();
+            let mut later_missing: Option<String> = None;
+            if variant >= 3 {
+                // the glyph-keyed stage is reached (invalidating patches already applied), everything
+                // pending; variant 3: the LAST (or a middle) non-invalidating URI is missing from the map
+                for (u, b) in &full {
+                    if inv0.contains(u) { st.insert(u.clone(), UriStatus::Applied); } else { st.insert(u.clone(), UriStatus::Pending(b.clone())); }
+                }
+                if variant == 3 {
+                    if non0.len() < 2 { continue; }
+                    let k = rng.range(1, non0.len() as i64 - 1) as usize;
+                    st.remove(&non0[k]);
+                    later_missing = Some(non0[k].clone());
+                }
+            } else {
             for (u, b) in &full {
                 match rng.below(10) {
                     0 => {}
                     1 | 2 => { st.insert(u.clone(), UriStatus::Applied); }
                     _ => { st.insert(u.clone(), UriStatus::Pending(b.clone())); }
                 }
+            }
             }
             if rng.chance(1, 5) { st.insert("foo/other".into(), UriStatus::Pending(vec![1, 2, 3])); }
             let mut n_calls_ok = 0;
@@ -1285,7 +1825,15 @@ fn run_round(s: &mut Session, rng: &mut Rng, n_cases: usize) {
                             s.count(&format!("round:err:{}", perr(e).chars().take(40).collect::<String>()));
                             s.oracle("round:error-leaves-status-map-untouched", work == st, input, || format!("before {} after {}", status_str(&st), status_str(&work)));
                             if let Some((k, _)) = fault {
-                                if dec.n_calls() > k { s.count("round:fault-hit"); }
+                                if dec.n_calls() > k {
+                                    s.count("round:fault-hit");
+                                    if variant >= 3 { s.count(&format!("round:glyph-keyed-stage-fault-at-call-{k}")); }
+                                }
+                            }
+                            if let Some(u) = &later_missing {
+                                s.count("round:later-uri-missing");
+                                s.oracle("round:later-missing-uri-is-MissingPatches-before-any-decode",
+                                    matches!(e, PatchingError::MissingPatches) && dec.n_calls() == 0, input, || format!("uri {u}: err {} after {} decoder calls", perr(e), dec.n_calls()));
                             }
                         }
                         Ok(_) => {
@@ -1305,6 +1853,9 @@ fn run_round(s: &mut Session, rng: &mut Rng, n_cases: usize) {
                             s.oracle("round:success-flips-exactly-the-applied-uris", work == want, input, || format!("want {} got {}", status_str(&want), status_str(&work)));
                             if let Some((k, _)) = fault {
                                 s.oracle("round:decoder-fault-is-error", dec.n_calls() <= k, input, || "fault hit but Ok".into());
+                            }
+                            if let Some(u) = &later_missing {
+                                s.oracle("round:later-missing-uri-is-MissingPatches-before-any-decode", false, input, || format!("uri {u} missing but Ok"));
                             }
                         }
                     }
@@ -1330,5 +1881,7 @@ fn run(cfg: &Config, s: &mut Session) {
     run_tk(s, &mut rng, 1500 * k);
     run_gk(s, &mut rng, 2500 * k, false);
     run_gk(s, &mut rng, 12 * k, true);
+    run_gk_groups(s, &mut rng, 600 * k);
+    run_boundary(s, &mut rng);
     run_round(s, &mut rng, 500 * k);
 }
